@@ -38,7 +38,7 @@ def run(ctx):
                 'top-m contract. non-trivial := n_cpu > 1 or compression > 1 or max_returns given, and the expected result is non-empty')
     cases = []
     sizes = list(range(1, 13)) + [16, 17, 23, 31, 40]
-    ncase = 70 if ctx.quick else 900
+    ncase = 70 if ctx.quick else 2500
     for t in range(ncase):
         n = rng.choice(sizes)
         if t < 16:
